@@ -533,6 +533,228 @@ def register_walk(R):
 
 
 # ---------------------------------------------------------------------------
+# walk_ast on an ARBITRARY abstract AST (pyvc/ext_C15.py: W_* ghost functions): any number of nodes, any nesting depth, any
+# branch length.  The AST is required to be numbered in document order (what the parser's allocation order gives):
+# references R0 .. END(R0)-1, the subtree of x is the interval [x, END(x)), children partition (x, END(x)) in order.
+# TREE nodes hang directly below the ROOT (the grammar of Parser._parse) and carry the label AXON or DENDRITE.
+def register_walk_general(R):
+    from pyvc.values import PDict, PList
+    from swcgeom.core.swc_utils import get_names, get_types
+
+    W = X
+    names, types = get_names(), get_types()
+    KINDS7 = dict(id="int", type="int", x="real", y="real", z="real", r="real", pid="int")
+    NODE, TREE, ROOT = (lambda: X.at("NODE")), (lambda: X.at("TREE")), (lambda: X.at("ROOT"))
+
+    def setup(S):
+        import swcgeom.transforms.neurolucida_asc as _m
+        from pyvc import extract
+        from pyvc.engine import Frame
+        from pyvc.values import Func
+
+        S.eng.ghost["c15"] = {"walk": True}
+        r0, s0, L0, t0 = S.int("root"), S.int("first_free_id"), S.int("rows_before"), S.int("typee_len")
+        S.assume(z3.And(L0.z >= 0, t0.z >= 1))
+        cols = {c: PList.fresh(KINDS7[c], L0.z, name="col_" + c) for c in COLS7}
+        typee = PList.fresh("int", t0.z, name="typee")
+        ndata = PDict({getattr(names, c): cols[c] for c in COLS7})
+        clo = dict(next_id=s0, typee=typee, ndata=ndata, names=names, types=types)
+        clo["walk_ast"] = Func(extract.find(WALK)[0], Frame(vars=clo, globs=_m.__dict__), _m.__dict__, WALK)
+        pid = S.int("pid")
+        return dict(root=Sym(r0.z, "oref"), pid=pid, __closure__=clo,
+                    __ghost__=dict(clo=clo, R0=r0.z, s0=s0.z, L0=L0.z, t0=t0.z, pid0=pid.z, cols0={c: cols[c].cols[0] for c in COLS7}, typee0=typee.cols[0]))
+
+    G = lambda E, k: E.spec_extra[k]
+    CL = lambda E: E.spec_extra["clo"]  # the closure cells of from_ast (next_id, typee, ndata): the frame's own variables do not include them
+    E0 = lambda E: W.W_END(G(E, "R0"))
+    in_ast = lambda E, x: z3.And(x >= G(E, "R0"), x < E0(E))
+
+    # ---- the shape of the input AST (preconditions)
+    def pre_root(E, v, o):
+        r0 = G(E, "R0")
+        return z3.And(r0 >= 1, W.W_END(r0) > r0, W.W_KIND(r0) == ROOT(), W.W_ENCL(r0) == 0, W.W_RK(r0) == 0)
+
+    def pre_intervals(E, v, o):
+        x = z3.Int("wa!x")
+        n, e = W.W_NCH(x), W.W_END(x)
+        body = z3.And(n >= 0, x < e, e <= E0(E), z3.Implies(n == 0, e == x + 1),
+                      z3.Implies(n > 0, z3.And(W.W_CHILD(x, 0) == x + 1, W.W_END(W.W_CHILD(x, n - 1)) == e)))
+        return z3.ForAll([x], z3.Implies(in_ast(E, x), body), patterns=[W.W_NCH(x), W.W_END(x)])
+
+    def pre_children(E, v, o):
+        x, j = z3.Int("wa!x"), z3.Int("wa!j")
+        ch = W.W_CHILD(x, j)
+        body = z3.And(ch > x, ch < W.W_END(x), W.W_PAR(ch) == x, W.W_ENCL(ch) == z3.If(W.W_KIND(x) == TREE(), x, W.W_ENCL(x)))
+        return z3.ForAll([x, j], z3.Implies(z3.And(in_ast(E, x), j >= 0, j < W.W_NCH(x)), body), patterns=[ch])
+
+    def pre_siblings(E, v, o):
+        x, j, j2 = z3.Int("wa!x"), z3.Int("wa!j"), z3.Int("wa!j2")
+        return z3.ForAll([x, j, j2], z3.Implies(z3.And(in_ast(E, x), j >= 0, j2 == j + 1, j2 < W.W_NCH(x)), W.W_CHILD(x, j2) == W.W_END(W.W_CHILD(x, j))),
+                         patterns=[z3.MultiPattern(W.W_CHILD(x, j), W.W_CHILD(x, j2))])
+
+    def pre_kinds(E, v, o):
+        x = z3.Int("wa!x")
+        k = W.W_KIND(x)
+        lab = W.W_LABEL(x)
+        body = z3.And(k >= 1, k <= 5, (k == ROOT()) == (x == G(E, "R0")), z3.Implies(z3.Or(k == X.at("COLOR"), k == X.at("COMMENT")), W.W_NCH(x) == 0),
+                      z3.Implies(k == TREE(), z3.And(W.W_ENCL(x) == 0, z3.Or(lab == X.str_code("AXON"), lab == X.str_code("DENDRITE")))))
+        return z3.ForAll([x], z3.Implies(in_ast(E, x), body), patterns=[k])
+
+    def pre_rank(E, v, o):
+        y, y2 = z3.Int("wa!y"), z3.Int("wa!y2")
+        step = z3.ForAll([y], z3.Implies(in_ast(E, y), W.W_RK(y + 1) == W.W_RK(y) + z3.If(W.W_KIND(y) == NODE(), 1, 0)), patterns=[z3.MultiPattern(W.W_RK(y), W.W_KIND(y))])
+        mono = z3.ForAll([y, y2], z3.Implies(z3.And(y >= G(E, "R0"), y < y2, y2 <= E0(E)),
+                                             z3.And(W.W_RK(y) <= W.W_RK(y2), z3.Implies(W.W_KIND(y) == NODE(), W.W_RK(y) < W.W_RK(y2)))),
+                         patterns=[z3.MultiPattern(W.W_RK(y), W.W_RK(y2))])
+        return z3.And(step, mono)
+
+    def pre_state(E, v, o):
+        return z3.And(*[CL(E)["ndata"].items[getattr(names, c)].nz() == G(E, "L0") for c in COLS7], CL(E)["typee"].nz() == G(E, "t0"), to_z3(CL(E)["next_id"], "int") == G(E, "s0"))
+
+    # ---- the stack as (length, node(i), pid(i))
+    def stk(v):
+        st = v["stack"]
+        if st.items is None:
+            return st.nz(), (lambda i: z3.Select(st.cols[0], i)), (lambda i: z3.Select(st.cols[1], i))
+
+        def pick(col, kind):
+            def f(i):
+                z = to_z3(st.items[-1][col], kind) if st.items else z3.IntVal(0)
+                for k in range(len(st.items) - 2, -1, -1):
+                    z = z3.If(i == k, to_z3(st.items[k][col], kind), z)
+                return z
+
+            return f
+
+        return z3.IntVal(len(st.items)), pick(0, "oref"), pick(1, "int")
+
+    def pats(v, *ps):
+        """quantifier patterns over stack entries: only when the stack is symbolic (a concrete stack gives terms without the bound variable)"""
+        return list(ps) if v["stack"].items is None else []
+
+    def beg(E, v, k):
+        m, nd, _ = stk(v)
+        return z3.If(nd(k) != 0, nd(k), z3.If(k == 0, E0(E), nd(k - 1)))
+
+    def cur_ref(E, v):
+        m, nd, _ = stk(v)
+        return z3.If(m == 0, E0(E), beg(E, v, m - 1))
+
+    def pid_of(E, x):
+        return z3.If(x == G(E, "R0"), G(E, "pid0"), z3.If(W.W_KIND(W.W_PAR(x)) == NODE(), G(E, "s0") + W.W_RK(W.W_PAR(x)), z3.IntVal(-1)))
+
+    def type_of(E, x):
+        t = W.W_ENCL(x)
+        return z3.If(t != 0, z3.If(W.W_LABEL(t) == X.str_code("AXON"), z3.IntVal(types.axon), z3.IntVal(types.basal_dendrite)),
+                     z3.Select(G(E, "typee0"), G(E, "t0") - 1))
+
+    def expected(E, c, y):
+        if c == "id":
+            return G(E, "s0") + W.W_RK(y)
+        if c == "pid":
+            return pid_of(E, y)
+        if c == "type":
+            return type_of(E, y)
+        return W.W_V["xyzr".index(c)](y)
+
+    # ---- invariants
+    def j_stack(E, v, o):
+        i = z3.Int(fresh_name("i"))
+        m, nd, _ = stk(v)
+        after = z3.If(i == 0, E0(E), beg(E, v, i - 1))
+        return z3.ForAll([i], z3.Implies(z3.And(i >= 0, i < m, nd(i) != 0), z3.And(in_ast(E, nd(i)), W.W_END(nd(i)) == after)), patterns=pats(v, nd(i)))
+
+    def j_pid(E, v, o):
+        i = z3.Int(fresh_name("i"))
+        m, nd, pd = stk(v)
+        return z3.ForAll([i], z3.Implies(z3.And(i >= 0, i < m, nd(i) != 0), pd(i) == pid_of(E, nd(i))), patterns=pats(v, nd(i)))
+
+    def j_counts(E, v, o):
+        c = cur_ref(E, v)
+        m, _, _ = stk(v)
+        return z3.And(m >= 0, c >= G(E, "R0"), c <= E0(E), to_z3(CL(E)["next_id"], "int") == G(E, "s0") + W.W_RK(c),
+                      *[CL(E)["ndata"].items[getattr(names, col)].nz() == G(E, "L0") + W.W_RK(c) for col in COLS7])
+
+    def j_rows(col):
+        def f(E, v, o):
+            y = z3.Int(fresh_name("y"))
+            c = cur_ref(E, v)
+            lst = CL(E)["ndata"].items[getattr(names, col)]
+            return z3.ForAll([y], z3.Implies(z3.And(y >= G(E, "R0"), y < c, W.W_KIND(y) == NODE()),
+                                             z3.Select(lst.cols[0], G(E, "L0") + W.W_RK(y)) == expected(E, col, y)), patterns=[W.W_RK(y)])
+
+        return f
+
+    def j_old_rows(E, v, o):
+        i = z3.Int(fresh_name("i"))
+        return z3.ForAll([i], z3.Implies(z3.And(i >= 0, i < G(E, "L0")),
+                                         z3.And(*[z3.Select(CL(E)["ndata"].items[getattr(names, c)].cols[0], i) == z3.Select(G(E, "cols0")[c], i) for c in COLS7])))
+
+    def j_types(E, v, o):
+        i, k = z3.Int(fresh_name("i")), z3.Int(fresh_name("k"))
+        m, nd, _ = stk(v)
+        ty = CL(E)["typee"]
+        t, t0 = ty.nz(), G(E, "t0")
+        top = z3.Select(ty.cols[0], t - 1)
+        label_code = lambda x: z3.If(W.W_LABEL(x) == X.str_code("AXON"), z3.IntVal(types.axon), z3.IntVal(types.basal_dendrite))
+        return [
+            ("marker-means-one-tree-type-pushed", z3.ForAll([k], z3.Implies(z3.And(k >= 0, k < m, nd(k) == 0), t == t0 + 1), patterns=pats(v, nd(k)))),
+            ("top-entry-outside-a-tree-means-no-tree-type-pushed", z3.And(t >= t0, t <= t0 + 1, z3.Implies(m == 0, t == t0), z3.Implies(z3.And(m > 0, nd(m - 1) != 0, W.W_ENCL(nd(m - 1)) == 0), t == t0))),
+            ("entry-inside-a-tree-is-not-the-bottom-entry", z3.ForAll([i], z3.Implies(z3.And(i >= 0, i < m, nd(i) != 0, W.W_ENCL(nd(i)) != 0), i >= 1), patterns=pats(v, nd(i)))),
+            ("neighbouring-entries-lie-in-the-same-tree",
+             z3.ForAll([i], z3.Implies(z3.And(i >= 1, i < m, nd(i) != 0, nd(i - 1) != 0), W.W_ENCL(nd(i)) == W.W_ENCL(nd(i - 1))), patterns=pats(v, nd(i)))),
+            ("entries-above-the-marker-lie-in-a-tree",
+             z3.ForAll([i, k], z3.Implies(z3.And(k >= 0, k < i, i < m, nd(k) == 0, nd(i) != 0), W.W_ENCL(nd(i)) != 0), patterns=pats(v, z3.MultiPattern(nd(i), nd(k))))),
+            ("entry-inside-a-tree-sees-that-trees-type-on-top",
+             z3.ForAll([i], z3.Implies(z3.And(i >= 0, i < m, nd(i) != 0, W.W_ENCL(nd(i)) != 0), z3.And(t == t0 + 1, top == label_code(W.W_ENCL(nd(i))))), patterns=pats(v, nd(i)))),
+            ("entries-below-the-marker-are-nodes-outside-any-tree",
+             z3.ForAll([i, k], z3.Implies(z3.And(i >= 0, i < k, k < m, nd(k) == 0), z3.And(nd(i) != 0, W.W_ENCL(nd(i)) == 0)), patterns=pats(v, z3.MultiPattern(nd(i), nd(k))))),
+            ("callers-types-untouched", z3.ForAll([i], z3.Implies(z3.And(i >= 0, i < t0), z3.Select(ty.cols[0], i) == z3.Select(G(E, "typee0"), i)))),
+        ]
+
+    def part(fn, idx):
+        return lambda E, v, o: fn(E, v, o)[idx][1]
+
+    type_labels = ["marker-means-one-tree-type-pushed", "top-entry-outside-a-tree-means-no-tree-type-pushed", "entry-inside-a-tree-is-not-the-bottom-entry", "neighbouring-entries-lie-in-the-same-tree",
+                   "entries-above-the-marker-lie-in-a-tree", "entry-inside-a-tree-sees-that-trees-type-on-top", "entries-below-the-marker-are-nodes-outside-any-tree",
+                   "callers-types-untouched"]
+    INV = ([("stack-is-the-pending-part-of-the-document-in-order", j_stack), ("stack-entries-carry-the-id-of-their-parent-point", j_pid),
+            ("ids-and-row-count-follow-the-points-passed", j_counts), ("earlier-rows-untouched", j_old_rows)]
+           + [(f"row-of-every-point-passed/{c}", j_rows(c)) for c in COLS7]
+           + [(lab, part(j_types, k)) for k, lab in enumerate(type_labels)])
+
+    # ---- postconditions
+    def post_rows(col):
+        def f(E, v, o):
+            y = z3.Int(fresh_name("y"))
+            lst = CL(E)["ndata"].items[getattr(names, col)]
+            return z3.ForAll([y], z3.Implies(z3.And(in_ast(E, y), W.W_KIND(y) == NODE()),
+                                             z3.Select(lst.cols[0], G(E, "L0") + W.W_RK(y)) == expected(E, col, y)), patterns=[W.W_RK(y)])
+
+        return f
+
+    def post_counts(E, v, o):
+        total = W.W_RK(E0(E))
+        return z3.And(to_z3(CL(E)["next_id"], "int") == G(E, "s0") + total, *[CL(E)["ndata"].items[getattr(names, c)].nz() == G(E, "L0") + total for c in COLS7])
+
+    def post_typee(E, v, o):
+        i = z3.Int(fresh_name("i"))
+        ty = CL(E)["typee"]
+        return z3.And(ty.nz() == G(E, "t0"), z3.ForAll([i], z3.Implies(z3.And(i >= 0, i < G(E, "t0")), z3.Select(ty.cols[0], i) == z3.Select(G(E, "typee0"), i))))
+
+    R.add(WALK, prop="C15", setup=setup,
+          requires=[("root-is-the-ROOT-node", pre_root), ("subtrees-are-intervals-of-the-document-order", pre_intervals),
+                    ("children-lie-inside-their-parent-and-know-it", pre_children), ("consecutive-children-are-adjacent-intervals", pre_siblings),
+                    ("kinds-and-tree-labels", pre_kinds), ("rank-counts-the-points-before-a-node", pre_rank), ("accumulators-as-from_ast-hands-them-over", pre_state)],
+          ensures=[("exactly-one-row-per-point-and-ids-continue", post_counts), ("earlier-rows-untouched", j_old_rows), ("callers-type-stack-restored", post_typee)]
+          + [(f"row-of-point-number-k-in-document-order-is-that-point/{c}", post_rows(c)) for c in COLS7],
+          loops={0: dict(invariant=INV, types={"stack": ["oref", "int"]})},
+          options=dict(extend_hook=X.walk_extend_hook),
+          notes="ARBITRARY abstract AST in document order (symbolic size, depth, branch length); rows: id = first free id + number of points before, "
+                "type = label of the enclosing TREE (else the caller's current type), values = the point's, pid = id of the parent point or -1 (the given pid for the root)")
+
+
+# ---------------------------------------------------------------------------
 # ASTNode.add_child / ASTNode.__init__ on REAL objects: the facts the abstract heap model of pyvc/ext_C15.py relies on
 def register_astnode(R):
     from pyvc.values import PList
@@ -1127,6 +1349,7 @@ def register(R):
     register_core(R)
     register_acceptance(R)
     register_walk(R)
+    register_walk_general(R)
     register_astnode(R)
     register_lexer_chars(R)
     register_lexer(R)
